@@ -633,3 +633,8 @@ PROPS["C19"]["rule"] += " Interface names include names that are prefixes of one
 PROPS["C14"]["rule"] += " One random case in four lists one of the interface's own addresses (half of the time the wildcard's pick) among the static servers: the option is then not judged, the plugin must be unchanged."
 PROPS["C16"]["rule"] += " Wildcard cases give every other interface address the kernel's deprecated flag: only the stanza's own deprecated setting decides about counting down."
 
+PROPS["C19"]["rule"] += " Race-build part, second half (200 / 2000 runs): 2..6 goroutines subscribe at the same moment to an interface nobody has subscribed to yet; each must receive the one change that follows and see its channel closed."
+PROPS["C18"]["rule"] += " In a third of the run-path cases the OnMessage consumer takes 1 ms, 1 s or 3 s per message (later messages wait in the socket): the model goes by the instant each message was read."
+PROPS["C11"]["rule"] += " One random case in four gives closing a connection a latency of 1 ms .. 5 s (reference policy and run alike)."
+PROPS["C10"]["rule"] += " One random policy case in four gives closing a connection a latency of 1 ms .. 5 s."
+PROPS["C12"]["rule"] += " Two-interfaces sub-check (1 500 / 150 000 cases, real clock, judged by labels only): two Advertisers sharing Context, Metrics and a logger whose lines take 0.1 ms each hear an RA 0..250 us apart; each interface must count exactly its own inconsistencies."
